@@ -54,11 +54,14 @@ func runDVB(line []byte, rec *recorder) {
 		tu := t.UTC()
 		rec.ev(M{"ev": "dec", "b": ints(b), "err": errStr(err), "day": int(day), "sod": int(sod), "y": tu.Year(), "m": int(tu.Month()), "d": tu.Day()})
 	}
+	subsec := []int{0, 0, 0, 1, 499999999, 500000000, 999999999}
 	enc := func(y, m, d, h, mi, s int) {
 		var b []byte
 		var n int
 		var err error
-		if p := safeCall(func() { b, n, err = astits.VerifWriteDVBTime(time.Date(y, time.Month(m), d, h, mi, s, 0, time.UTC)) }); p != nil {
+		// a sub-second part is not representable in the five bytes: the second it belongs to is what is encoded
+		ns := subsec[rg.intn(len(subsec))]
+		if p := safeCall(func() { b, n, err = astits.VerifWriteDVBTime(time.Date(y, time.Month(m), d, h, mi, s, ns, time.UTC)) }); p != nil {
 			rec.ev(M{"ev": "panic", "what": fmt.Sprintf("writeDVBTime: %v", p)})
 			return
 		}
@@ -116,12 +119,20 @@ func runDVB(line []byte, rec *recorder) {
 				enc(y0, m0, d0, 23, 59, 59)
 				enc(y, m, d, 0, 0, 0)
 			}
+			// days whose (year, month, day) fields differ from this one's in a few bits only, then the day again
+			for _, off := range []int{16, -16, 15, 31} {
+				if mjd+off >= 15079 && mjd+off <= 65535 && (mjd+off)%4 == 0 {
+					y3, m3, d3 := civil(mjd + off)
+					enc(y3, m3, d3, 0, 0, 0)
+					enc(y, m, d, 12, 0, 0)
+				}
+			}
 		}
 	case "enchist": // random walks over neighbouring days and times of day, decodes interleaved
 		for k := 0; k < sc.Hi; k++ {
 			mjd := 15079 + rg.intn(65536-15079)
 			for j := 0; j < 12; j++ {
-				mj := mjd + rg.intn(5) - 2
+				mj := mjd + []int{-2, -1, 0, 1, 2, 16, -16, 15, 17, 31, -31, 365, 366}[rg.intn(13)]
 				if mj < 15079 || mj > 65535 {
 					continue
 				}
